@@ -4,6 +4,7 @@ import (
 	"fmt"
 	"strings"
 
+	"github.com/bufbuild/protocompile/protoutil"
 	"google.golang.org/protobuf/proto"
 	"google.golang.org/protobuf/reflect/protoreflect"
 	"verifharness/j5sgen"
@@ -113,7 +114,9 @@ func dumpField(fd protoreflect.FieldDescriptor) *DField {
 	default:
 		f.Label = "LOptional"
 	}
-	f.Opt3 = fd.HasOptionalKeyword()
+	// the raw descriptor field: protoreflect's HasOptionalKeyword() answers false for every
+	// repeated field, so it hides proto3_optional written on an array / map (fix d536c9b)
+	f.Opt3 = protoutil.ProtoFromFieldDescriptor(fd).GetProto3Optional()
 	if fd.Message() != nil {
 		f.TName = "." + string(fd.Message().FullName())
 	} else if fd.Enum() != nil {
